@@ -626,6 +626,14 @@ example : let s := run (init 4) (createActs 0 ++ createActs 0 ++ createActs 0 ++
      s'.w = .done ∧ s'.seen = [0, 2, 4, 4] ∧ s'.cancelled = [0, 2]) := by
   decide
 
+/-- non-vacuity of `c07_cancel_all_locked_progress`: three listeners, the walker has just taken the lock (`mu = 8`); a removal and a creation by
+    other threads are interleaved with its eight steps (both wait at `sm.sync.lock`): the walk is done -/
+example : let s := run (init 4) (createActs 0 ++ createActs 0 ++ createActs 0 ++ [.cancelAll, .wstep])
+    active s.w ∧ mu s = 8 ∧
+    (run s [.multi (.drop 20 0), .wstep, .multi (.step 20), .wstep, .multi (.step 20), .multi (.create 21), .wstep, .multi (.step 21), .wstep,
+            .multi (.step 20), .wstep, .multi (.step 20), .wstep, .multi (.step 21), .wstep, .wstep]).w = .done := by
+  refine ⟨trivial, by decide, by decide⟩
+
 #print axioms inv_run
 #print axioms c07_cancel_all_locked
 #print axioms c07_cancel_all_locked_progress
